@@ -191,6 +191,22 @@ def run(prop, tier, seed, replay=None, rep=None, finish=True):
                         args.append(('S-%05d' % k, [Ts], s_, d_, [], st['filt'], None, seed + k, 'tlc', True,
                                      {'destopts': o_, 'tiger_missing': True}))
                         k += 1
+            # the one-node tree (a one-token sentence without a wrapping root, `(NN Hello)`) among ordinary trees,
+            # in the formats that can carry it
+            ch_ = treeio.chars
+            one = {'n': 1, 'nodes': [{'y': [1], 'd': 0, 'tok': True,
+                                      'a': dict(treeio.attr(), lab=ch_('NN'), word=ch_('Hello'), lemma=ch_('--'),
+                                                morph=ch_('--'), edge=ch_('--'))}]}
+            some = [t_ for key_, ts_ in sorted(pool.items()) if not key_[1] for t_ in ts_[:2]][:4]
+            for j, (s_, d_) in enumerate((('brackets', 'brackets'), ('brackets', 'terminals'), ('discobrackets', 'discobrackets'),
+                                          ('discobrackets', 'brackets'))):
+                Ts = ([some[j % len(some)]] if some else []) + [one] + ([some[(j + 1) % len(some)]] if some else []) + [one]
+                sp = [{'k': 'abs', 'n': 1}, {'k': 'rest', 'n': 0}] if prop == 'C17' or j % 2 else []
+                if prop == 'C17' and not sp:
+                    continue
+                args.append(('S-%05d' % k, [Ts], s_, d_, sp, {'on': False, 'op': 'lt', 'val': 0}, None, seed + k, 'tlc', True,
+                             {'destopts': []}))
+                k += 1
             rep.exhaustive = True
             cases = core.pmap(fam_cli.record_cli_case, args, chunksize=4)
         ocases = []
